@@ -9,7 +9,7 @@ use hifitime::{Duration, Epoch, TimeScale, Unit};
 
 pub fn meta() -> Meta {
     Meta {
-        rule: "events = for one epoch (all nine scales, within +-10000 y of 1900): the duration-valued views to_jde_{tai,utc,tt}_duration, to_mjd_tt_duration, to_tt_since_j2k, and ~45 float-valued views (to_{mjd,jde}_{tai,utc}_{days,seconds,(unit)}, to_tt_*, to_jde_tt_days, to_mjd_tt_days, to_tt_centuries_j2k, to_{tai,utc,gpst,qzsst,gst,bdt}_{seconds,days}, to_unix{,_seconds,_milliseconds,_days}); and build-then-read: from_mjd_{tai,utc}, from_jde_{tai,utc}, from_unix_{seconds,milliseconds,duration}, plus from_mjd_* / from_jde_* / from_{mjd,jde}_in_time_scale in TAI, UTC, TT and the four GNSS scales (value only: the epoch denotes (x - origin) days on the own calendar of that scale). Expected: model reading (M-SCALE) + constant (15020 d; +2400000.5 d; -3155716800 s; UNIX = UTC count - 2208988800 s) exactly for durations; floats within 8 ulp of max(|exact|, one second in that unit) decided exactly against the rational; build-then-read within 8 ulp + 1 ns of the input. ET/TDB epochs: 30 ns tolerance. TAI instants without UTC pre-image: don't-care. Generation: reading lattice incl. leap seconds + stratified random readings; finite JD/MJD/UNIX inputs over the same span incl. values near zero and half-integers. Non-trivial = negative reading, UTC view within 41 s of a leap second, |view| < 1 s, input half-integer; distinct = distinct (reading, scale) / input hashes among those.",
+        rule: "events = for one epoch (all nine scales, within +-10000 y of 1900): the duration-valued views to_jde_{tai,utc,tt}_duration, to_mjd_tt_duration, to_tt_since_j2k, and ~45 float-valued views (to_{mjd,jde}_{tai,utc}_{days,seconds,(unit)}, to_tt_*, to_jde_tt_days, to_mjd_tt_days, to_tt_centuries_j2k, to_{tai,utc,gpst,qzsst,gst,bdt}_{seconds,days}, to_unix{,_seconds,_milliseconds,_days}); and build-then-read: from_mjd_{tai,utc}, from_jde_{tai,utc}, from_unix_{seconds,milliseconds,duration}, plus from_mjd_* / from_jde_* / from_{mjd,jde}_in_time_scale in TAI, UTC, TT and the four GNSS scales (value only: the epoch denotes (x - origin) days on the own calendar of that scale). Expected: model reading (M-SCALE) + constant (15020 d; +2400000.5 d; -3155716800 s; UNIX = UTC count - 2208988800 s) exactly for durations; floats within 8 ulp of max(|exact|, one second in that unit) decided exactly against the rational; build-then-read within 8 ulp + 1 ns of the input. ET/TDB epochs: 30 ns tolerance. TAI instants without UTC pre-image: don't-care. Generation: reading lattice incl. leap seconds + stratified random readings; finite JD/MJD/UNIX inputs over the same span incl. values near zero and half-integers. Non-trivial = negative reading, UTC view within 41 s of a leap second, |view| < 1 s, input half-integer; distinct = distinct (reading, scale) / input hashes among those. Round 10: MJD / JD / UNIX inputs on every day that ends with a leap second, the day before and after, six day fractions, through every constructor.",
         assumptions: &["'a few ulp' = 8"],
         mandatory: &["view/negative-reading", "view/utc-near-leap", "view/dyn-scale", "build/mjd", "build/jde", "build/unix", "build/half-integer", "build/in-time-scale"],
         thorough_scale: 40,
